@@ -1,5 +1,6 @@
 import Goirc.Model.Life
 import Goirc.Proofs.C07
+import Goirc.Proofs.C07Cancel
 /-!
 # C07 — Disconnect always completes, leaks nothing, and the client can reconnect
 
@@ -64,5 +65,48 @@ theorem can_reconnect (s : St) (t : Tid) (ping : Option Nat) (ht : s.thr t = .cL
     ∃ s', step s (.cSucceed t ping) = some s' ∧ s'.cur = s.cur + 1 ∧ s'.connected = true ∧ s'.g.inQ = 0 ∧ s'.g.outQ = 0 ∧
       s'.g.recv = .reading ∧ s'.g.send = .idle ∧ s'.g.loop = .select ∧ s'.g.sockClosed = false ∧ s'.g.cancelled = false := by
   exact Proofs.C07.can_reconnect ht hc
+
+/-! ### a disconnect that is asked for does begin (defect 12, fix 9105b13)
+
+The theorems above are about a teardown once some closer has passed the test-and-clear. These are about getting there
+after the user's context is cancelled, whatever the connection's goroutines are doing - in particular with `send` inside
+a write to a peer that has stopped reading (`peerStall`), `recv` inside a read and `runLoop` inside a handler that waits
+for room in the output queue, when none of them is looking at `ctx.Done()`. -/
+
+open Proofs.C07Cancel in
+/-- **a cancelled context is never ignored**: while the connection is up and its context is cancelled, one of the steps
+that lead to the teardown is enabled - the watchdog fires, a closer for this connection takes the free mutex or does
+its test-and-clear, or whoever holds the mutex gets out of the way -/
+theorem cancel_progress {s : St} (h : Reach s) (hc : s.connected = true) (hx : s.g.cancelled = true) :
+    ∃ l s', isCloser l = true ∧ step s l = some s' := by
+  exact Proofs.C07Cancel.cancel_progress h hc hx
+
+open Proofs.C07Cancel in
+/-- **and the teardown is at most four such steps away**, in every reachable state: (the mutex holder lets go,) (the
+watchdog fires,) a closer for this connection locks and tests - after which the flag is clear and `teardown_progress` /
+`teardown_terminates` take over. No step of `send`, `recv`, `runLoop`, `ping` or of the peer is needed. -/
+theorem cancel_reaches_teardown {s : St} (h : Reach s) (hc : s.connected = true) (hx : s.g.cancelled = true) :
+    ∃ ls s', run s ls = some s' ∧ ls.length ≤ 4 ∧ (∀ l ∈ ls, isCloser l = true) ∧ s'.connected = false ∧ Draining s' := by
+  exact Proofs.C07Cancel.cancel_reaches_teardown h hc hx
+
+open Proofs.C07Cancel in
+/-- **the watchdog is what does it** (defect 12 as a state of the model): the history `stuckHistory` - one handler
+emitting 34 lines, the peer stops reading, the context is cancelled - reaches a state with the connection up and the
+context cancelled in which NOTHING the connection does on its own is enabled except the watchdog. Without it (the tree
+before 9105b13) that state is a deadlock: no DISCONNECTED, `Connected()` true for ever. -/
+theorem watchdog_is_needed :
+    Reach stuck ∧ stuck.connected = true ∧ stuck.g.cancelled = true ∧
+    ∀ l s', step stuck l = some s' → isOwn l = true → ∃ t, l = .watchFire t := by
+  exact ⟨stuck_reach, by decide, by decide, stuck_only_watchdog⟩
+
+/-- non-vacuity: `stuck` meets the hypotheses of `cancel_progress` and `cancel_reaches_teardown` -/
+example : ∃ s, Reach s ∧ s.connected = true ∧ s.g.cancelled = true :=
+  ⟨Proofs.C07Cancel.stuck, watchdog_is_needed.1, watchdog_is_needed.2.1, watchdog_is_needed.2.2.1⟩
+
+/-- a peer that has stopped reading cannot hold up a teardown that has begun: `teardown_progress` and
+`teardown_terminates` above are proved with `peerStall` in the model (the socket is closed by then, so the write fails) -/
+theorem stalled_write_fails_once_closed (s : St) (t : Tid) (hw : s.g.send = .writing) (hcl : s.g.sockClosed = true)
+    (hi : s.thr t = .idle) : (step s (.sendFail t)).isSome = true := by
+  simp [step, hw, hcl, hi]
 
 end Props.C07
